@@ -7,7 +7,7 @@
    trees against `denote` inside Coq. *)
 From Coq Require Import ZArith List Bool.
 Import ListNotations.
-Require Import Amoco.Exp.Sem Amoco.Exp.Cst Amoco.Exp.CstProofs Amoco.Exp.Eval Amoco.Exp.EvalProofs Amoco.Exp.Rules Amoco.Exp.RulesProofs Amoco.Exp.Rules2 Amoco.Exp.Rules2Proofs Amoco.Exp.RulesWf.
+Require Import Amoco.Exp.Sem Amoco.Exp.Cst Amoco.Exp.CstProofs Amoco.Exp.Eval Amoco.Exp.EvalProofs Amoco.Exp.Rules Amoco.Exp.RulesProofs Amoco.Exp.Rules2 Amoco.Exp.Rules2Proofs Amoco.Exp.RulesWf Amoco.Exp.Steps.
 Open Scope Z_scope.
 
 (* --- constant folding: every cst operator, every width, any sign flags on the operands --- *)
@@ -129,6 +129,13 @@ Theorem C01_restruct_sound : forall env e, wf e = true ->
   wf (restruct e) = true /\ esize (restruct e) = esize e /\ forall d, denote env e = Some d -> denote env (restruct e) = Some d.
 Proof. exact restruct_sound. Qed.
 Print Assumptions C01_restruct_sound.
+
+(* every finite sequence of modelled simplifier steps (any rule of either table fired at the root, or comp.restruct) from a
+   well-sized node ends in a well-sized node of the same width and the same meaning under every valuation *)
+Theorem C01_modelled_simplifier_steps_sound : forall e e', wf e = true -> steps e e' ->
+  wf e' = true /\ esize e' = esize e /\ forall env d, denote env e = Some d -> denote env e' = Some d.
+Proof. intros e e' W H. destruct (steps_sound e e' W H) as [W' [S D]]. auto. Qed.
+Print Assumptions C01_modelled_simplifier_steps_sound.
 
 (* Non-vacuity of the rule theorems: each rule fires on a concrete well-sized node *)
 Example C01_rules_fire :
